@@ -29,6 +29,11 @@ CLAIMED = {
             "DESIGN.md 4 C17"),
 }
 
+CLAIMED["C18"] = ("prober",
+    "25 theorems over Flocq binary64 / int64 / byte-string models of backoff, parseT4T7Latency, validateFlags, the URI builders and probeInterval (bounds and monotonicity of backoff for every int64 base <= max and every retry count; latency parsing total, header first, first entry, exact value or range error; accepted flags => URI segments exactly the supplied names, parsable probe type, 10^6 <= interval), bit-exact differential correspondence against the real functions (two packages stitched).",
+    "Trusted: Coq kernel, Flocq 4.1.0, extraction, driver, harnesses. The floating-point theorems depend on the standard library's axioms ClassicalDedekindReals.sig_not_dec, sig_forall_dec, FunctionalExtensionality.functional_extensionality_dep, Classical_Prop.classic (via Flocq/Reals). strconv.ParseInt, the two regexps, %s formatting are modelled and compared on every case; SHA-256 is executable in Coq, compared with crypto/sha256, abstract in the theorem; main() glue between validateFlags and the URI/interval use is replicated in the harness; int64(float64) as on amd64.",
+    "DESIGN.md 4 C18")
+
 PLANNED = {
     "C01": "pool engine built (model, monitor, correspondence, fix commits); registered once Props_C01.v carries its theorem",
     "C02": "as C01", "C03": "as C01", "C04": "as C01", "C05": "as C01", "C06": "as C01", "C07": "as C01",
@@ -48,6 +53,7 @@ ENGINES = [
     {"name": "keys", "path": "coq/Keys, harness/keys, ocaml/keys", "serves_properties": ["C11"], "kind_free_text": "model of reflect-based key extraction"},
     {"name": "codec", "path": "coq/Codec, harness/codec, ocaml/codec", "serves_properties": ["C19"], "kind_free_text": "CRC32C + protobuf wire model"},
     {"name": "config", "path": "coq/Config, harness/config, ocaml/config", "serves_properties": ["C17"], "kind_free_text": "ApiConfig/JSON model, protojson modelled"},
+    {"name": "prober", "path": "coq/Prober, harness/prober, harness/prober_main, ocaml/prober", "serves_properties": ["C18"], "kind_free_text": "Flocq binary64 / int64 models of the spanner prober helpers"},
 ]
 
 
